@@ -171,6 +171,8 @@ static const char *jsgf_text(const char *k)
     if (!strcmp(k, "garbage")) return "\x01\xff this is not a grammar ((((";
     if (!strcmp(k, "nopublic")) return "#JSGF V1.0; grammar g; <s> = go forward;";
     if (!strcmp(k, "oov")) return "#JSGF V1.0; grammar g; public <s> = go zzyzxqq;";
+    /* a grammar that USES a word added by decoder_add_word (new0, new1, ...): valid only after that word was added */
+    if (!strncmp(k, "usenew", 6)) { static char g2[128]; snprintf(g2, sizeof(g2), "#JSGF V1.0; grammar g; public <s> = go new%s forward | hello;", k + 6); return g2; }
     return "#JSGF V1.0; grammar g; public <s> = hello;";
 }
 
@@ -179,6 +181,7 @@ static const char *word_text(const char *k)
     if (!strcmp(k, "known")) return "forward";
     if (!strcmp(k, "alt")) return "forward(2)";
     if (!strcmp(k, "altnew")) return "forward(7)";          /* new alternate of an existing base word */
+    if (!strcmp(k, "altdict")) return "hello(2)";            /* an alternate every dictionary used here already holds */
     if (!strcmp(k, "altmissing")) return "zzyzxqq(2)";      /* alternate of a base word that is not in the dictionary */
     if (!strncmp(k, "altofnew", 8)) { static char b2[32]; snprintf(b2, sizeof(b2), "new%s(2)", k + 8); return b2; }
     if (!strcmp(k, "filler")) return "<sil>";
